@@ -7,6 +7,7 @@ from __future__ import annotations
 
 import contextlib
 import io
+import json
 import multiprocessing as mp
 import os
 import time
@@ -143,7 +144,16 @@ def runtime_cases():
                 out.append(dict(kind="announced-type", version=v, transport=tr, stype=stype))
             for exc in ("ValueError", "KeyError"):
                 out.append(dict(kind="step-raises", version=v, transport=tr, exc=exc))
+    # extra methods (a request kind of every API version): names around the request names that
+    # some versions do not know
+    for v in (None, "1", "2", "2.1", "2.2", "2.3", "3.0"):
+        for tr in ("local", "mem"):
+            out.append(dict(kind="extra-methods", version=v, transport=tr, names=EXTRA_NAMES))
     return out
+
+
+EXTRA_NAMES = ["setup", "done", "set", "up", "setup_done_2", "step_x", "ste", "get", "data",
+               "get_data_x", "init_x", "sto", "create_x", "max_advance", "e", "p"]
 
 
 def judge_runtime(c):
@@ -154,6 +164,27 @@ def judge_runtime(c):
 
     def add(kind, msg):
         out.append(dict(prop="C15", kind=kind, cls=None, msg=f"{msg}: {c}", case=dict(c, runtime=True)))
+    if c["kind"] == "extra-methods":
+        s = dict(sid="S", type="time-based", step=1, cls=cls, api_version=v, omit_type=False,
+                 extra_methods=c["names"], extra_calls=c["names"])
+        scen = dict(until=2, sims=[s], conns=[])
+        run = Run(scen, dict(gates=(), transport=c["transport"]), None)
+        with contextlib.redirect_stdout(io.StringIO()):
+            res = run.execute()
+        reached = [e[2] for e in run.trace if e[0] == "XM"]
+        args = {e[2]: e[3] for e in run.trace if e[0] == "XM"}
+        answers = {e[2]: e[3:] for e in run.trace if e[0] == "XR"}
+        if res[0] != "ok":
+            add("run-failed", f"run() -> {res}")
+        for n in c["names"]:
+            if reached.count(n) != 1:
+                add("extra-method-not-forwarded",
+                    f"extra method {n!r} reached the simulator {reached.count(n)} times")
+            elif args[n] != json.dumps([[7], {"key": "v"}], sort_keys=True):
+                add("extra-method-arguments-changed", f"{n!r} was called with {args[n]}")
+            if answers.get(n) != ("ok", repr(f"{n}-ret")):
+                add("extra-method-answer-changed", f"{n!r} answered {answers.get(n)}")
+        return out
     if c["kind"] == "announced-type":
         # an old simulator that DOES announce its type is scheduled according to it
         s = dict(sid="S", type=c["stype"], cls=cls, api_version=v, omit_type=False,
